@@ -129,7 +129,19 @@ module N :
   val compare : n -> n -> comparison
 
   val leb : n -> n -> bool
+
+  val ltb : n -> n -> bool
  end
+
+val zero : char
+
+val one : char
+
+val shift : bool -> char -> char
+
+val ascii_of_pos : positive -> char
+
+val ascii_of_N : n -> char
 
 val n_of_digits : bool list -> n
 
@@ -303,6 +315,12 @@ val starts_with_char : char -> char list -> bool
 
 val ends_with_char : char -> char list -> bool
 
+val ascii_lower : char -> char
+
+val str_map : (char -> char) -> char list -> char list
+
+val str_lower : char list -> char list
+
 val str_join : char list -> char list list -> char list
 
 val str_concat : char list list -> char list
@@ -312,6 +330,8 @@ val str_split_aux : char -> char list -> char list -> char list list
 val str_split : char -> char list -> char list list
 
 val str_contains_char : char -> char list -> bool
+
+val str_ltb : char list -> char list -> bool
 
 val z_to_string : z -> char list
 
@@ -747,6 +767,55 @@ val variants : feature -> feature list
 
 val variation_points : fm -> (feature * feature list) list
 
+val insert :
+  ('a1 -> 'a2) -> ('a2 -> 'a2 -> bool) -> 'a1 -> 'a1 list -> 'a1 list
+
+val sort_by : ('a1 -> 'a2) -> ('a2 -> 'a2 -> bool) -> 'a1 list -> 'a1 list
+
+val list_eqb : ('a1 -> 'a1 -> bool) -> 'a1 list -> 'a1 list -> bool
+
+val strs_ltb : char list list -> char list list -> bool
+
+val sort_strs : char list list -> char list list
+
+val dedup_sorted : char list list -> char list list
+
+val strset : char list list -> char list list
+
+val feature_eqb : feature -> feature -> bool
+
+type orel = char list * relation
+
+val child_names : relation -> char list list
+
+val relation_eqb : orel -> orel -> bool
+
+type rkey = ((char list * char list list) * z) * z
+
+val relation_hash_key : orel -> rkey
+
+val relation_sort_key : orel -> rkey
+
+val rkey_ltb : rkey -> rkey -> bool
+
+val ctc_key : (char list -> char list) -> ctc -> char list
+
+val ctc_eqb : (char list -> char list) -> ctc -> ctc -> bool
+
+val fm_relations : fm -> orel list
+
+val fm_eqb : (char list -> char list) -> fm -> fm -> bool
+
+val rkey_eqb : rkey -> rkey -> bool
+
+val dedup_rkeys : rkey list -> rkey list
+
+val rkeyset : rkey list -> rkey list
+
+val fm_hash_key :
+  (char list -> char list) -> fm -> ((char list * char list list) * rkey
+  list) * char list list
+
 val e_aval : aval -> sexp
 
 val d_aval : sexp -> aval option
@@ -800,6 +869,14 @@ val op_ctcq : node -> sexp
 val op_ops : fm -> sexp
 
 val op_sem : fm -> sexp
+
+val e_matrix : ('a1 -> 'a2 -> bool) -> 'a1 list -> 'a2 list -> sexp
+
+val hk_eqb :
+  (((char list * char list list) * rkey list) * char list list) ->
+  (((char list * char list list) * rkey list) * char list list) -> bool
+
+val op_eqq : fm -> fm -> sexp
 
 val bad : char list -> sexp
 
